@@ -86,7 +86,5 @@ let () =
       let d = bytes_of_hex h in
       Printf.sprintf "opt=%s ref=%s" (mir_flags d (BinTape.parse_opt d)) (mir_flags d (BinTape.parse_ref d))
     | _ -> "BADCASE");
-  register "bt.chain" (function [hs] -> chain hs | _ -> "BADCASE");
-  (* model only: does the reference run take the only_empties branch with an odd remainder (finding L) *)
-  register "bt.odd" (function [h] -> if BinTapeMirror.odd_hit (bytes_of_hex h) then "1" else "0" | _ -> "BADCASE")
+  register "bt.chain" (function [hs] -> chain hs | _ -> "BADCASE")
 (* <<< a_c03 *)
